@@ -53,6 +53,13 @@ def one(seed):
     hs = [ChunkedScoresHolder.load_h5(files[c]) for c in order]
     for f in files: os.unlink(f)
     tot = ChunkedScoresHolder.concat(hs) if hs else None
+    if tot is not None:
+        ids = [int(x) for x in np.asarray(tot.plate_ids).tolist()]
+        if sorted(ids) != cand: return "the concatenated score table lists plates %r, expected every candidate %r exactly once" % (sorted(ids), cand)
+        for pid in cand:
+            try: sc = float(tot.get_score(pid))
+            except Exception as e: return "get_score(%d) on the concatenated table raised %r" % (pid, e)
+            if sc != table[pid]: return "get_score(%d) = %r but the plate was scored %r" % (pid, sc, table[pid])
     for pol in (None, Only(lambda p: True), Only(lambda p: int(p.plate_id) % 2 == 0), Only(lambda p: False)):
         allowed = [x for x in cand if pol is None or pol.keep(type("P", (), {"plate_id": x})())]
         try: got = select_next_plate(tot, s, pol, list(batch), np.random.default_rng(1))
